@@ -467,9 +467,12 @@ fn wfile(a: &[&str]) -> Option<String> {
 }
 
 fn meta(s: String) -> String {
-    let r = guarded(AssertUnwindSafe(|| -> Result<(), Error> {
-        let pkg = PackageBuilder::new(&s, &s, &s, &s, &s)
+    let r = guarded(AssertUnwindSafe(|| -> Result<String, Error> {
+        use rpm::{Dependency as D, Scriptlet};
+        let scr = || Scriptlet::new(s.clone()).flags(rpm::ScriptletFlags::EXPAND).prog(vec![s.clone(), s.clone()]);
+        let b = PackageBuilder::new(&s, &s, &s, &s, &s)
             .compression(CompressionType::None)
+            .epoch(s.len() as u32)
             .release(s.clone())
             .url(s.clone())
             .vcs(s.clone())
@@ -480,14 +483,88 @@ fn meta(s: String) -> String {
             .build_host(&s)
             .cookie(&s)
             .add_changelog_entry(&s, &s, 1u32)
-            .with_file(source_file(), FileOptions::new("/usr/bin/x").user(s.clone()).group(s.clone()).symlink(s.clone()))?
-            .build()?;
-        let _ = roundtrip(&pkg);
-        Ok(())
+            // every scriptlet setter: from the text itself (`impl From<T: Into<String>> for Scriptlet`) and from a `Scriptlet`
+            .pre_install_script(s.as_str()).post_install_script(s.clone()).pre_uninstall_script(scr()).post_uninstall_script(scr())
+            .pre_trans_script(s.as_str()).post_trans_script(scr()).pre_untrans_script(s.clone()).post_untrans_script(scr())
+            .verify_script(scr())
+            // every dependency setter
+            .provides(D::eq(s.clone(), s.clone())).requires(D::any(s.clone())).conflicts(D::less(s.clone(), s.clone()))
+            .obsoletes(D::greater_eq(s.clone(), s.clone())).recommends(D::user(&s)).suggests(D::group(&s))
+            .enhances(D::config(&s, s.clone())).supplements(D::rpmlib(&s, s.clone()))
+            .with_file(source_file(), FileOptions::new("/usr/bin/x").user(s.clone()).group(s.clone()).symlink(s.clone()))?;
+        // every other text is built through `build_and_sign` (Ed25519 test key), the others through `build`
+        let pkg = if s.len() % 2 == 1 {
+            let key = std::fs::read("/repo/tests/assets/signing_keys/secret_ed25519.asc")?;
+            b.build_and_sign(rpm::signature::pgp::Signer::load_from_asc_bytes(&key)?)?
+        } else {
+            b.build()?
+        };
+        // the round trip: every value comes back as given (a header string ends at its first NUL)
+        let p = match roundtrip(&pkg) { Ok(p) => p, Err(e) => return Ok(e) };
+        let m = &p.metadata;
+        let eq = |r: Result<&str, Error>| r.map(|v| v == s).unwrap_or(false);
+        let script_eq = |r: Result<Scriptlet, Error>, full: bool| r.map(|x| x.script == s && (!full || (x.flags == Some(rpm::ScriptletFlags::EXPAND)
+            && x.program == Some(vec![s.clone(), s.clone()])))).unwrap_or(false);
+        let dep_first = |r: Result<Vec<D>, Error>, name: &str, version: &str| r.map(|v| v.first().map(|d| d.name == name && d.version == version).unwrap_or(false)).unwrap_or(false);
+        let mut bad: Vec<&str> = Vec::new();
+        if !eq(m.get_name()) { bad.push("name"); }
+        if !eq(m.get_version()) { bad.push("version"); }
+        if !eq(m.get_release()) { bad.push("release"); }
+        if !eq(m.get_arch()) { bad.push("arch"); }
+        if !eq(m.get_license()) { bad.push("license"); }
+        if !eq(m.get_summary()) { bad.push("summary"); }
+        if !eq(m.get_description()) { bad.push("description"); }
+        if !eq(m.get_url()) { bad.push("url"); }
+        if !eq(m.get_vcs()) { bad.push("vcs"); }
+        if !eq(m.get_vendor()) { bad.push("vendor"); }
+        if !eq(m.get_packager()) { bad.push("packager"); }
+        if !eq(m.get_group()) { bad.push("group"); }
+        if !eq(m.get_build_host()) { bad.push("buildhost"); }
+        if !eq(m.get_cookie()) { bad.push("cookie"); }
+        if m.get_epoch().ok() != Some(s.len() as u32) { bad.push("epoch"); }
+        if !script_eq(m.get_pre_install_script(), false) { bad.push("prein"); }
+        if !script_eq(m.get_post_install_script(), false) { bad.push("postin"); }
+        if !script_eq(m.get_pre_uninstall_script(), true) { bad.push("preun"); }
+        if !script_eq(m.get_post_uninstall_script(), true) { bad.push("postun"); }
+        if !script_eq(m.get_pre_trans_script(), false) { bad.push("pretrans"); }
+        if !script_eq(m.get_post_trans_script(), true) { bad.push("posttrans"); }
+        if !script_eq(m.get_pre_untrans_script(), false) { bad.push("preuntrans"); }
+        if !script_eq(m.get_post_untrans_script(), true) { bad.push("postuntrans"); }
+        if !dep_first(m.get_provides(), &s, &s) { bad.push("provides"); }
+        if !dep_first(m.get_requires(), &s, "") { bad.push("requires"); }
+        if !dep_first(m.get_conflicts(), &s, &s) { bad.push("conflicts"); }
+        if !dep_first(m.get_obsoletes(), &s, &s) { bad.push("obsoletes"); }
+        if !dep_first(m.get_recommends(), &format!("user({})", s), "") { bad.push("recommends"); }
+        if !dep_first(m.get_suggests(), &format!("group({})", s), "") { bad.push("suggests"); }
+        if !dep_first(m.get_enhances(), &format!("config({})", s), &s) { bad.push("enhances"); }
+        if !dep_first(m.get_supplements(), &format!("rpmlib({})", s), &s) { bad.push("supplements"); }
+        let cl_ok = m.get_changelog_entries().map(|v| v.len() == 1 && v[0].name == s && v[0].description == s && v[0].timestamp == 1).unwrap_or(false);
+        if !cl_ok { bad.push("changelog"); }
+        let f_ok = m.get_file_entries().map(|v| v.len() == 1 && v[0].ownership.user == s && v[0].ownership.group == s && v[0].linkto == s).unwrap_or(false);
+        if !f_ok { bad.push("file"); }
+        Ok(if bad.is_empty() { "ok rt=all".to_string() } else { format!("ok rt={}", bad.join("+")) })
     }));
     match r {
-        Ok(Ok(())) => "ok".into(),
+        Ok(Ok(s)) => s,
         Ok(Err(e)) => err_class(&e).into(),
+        Err(_) => "panic".into(),
+    }
+}
+
+/// `build17 <tokens>`: a whole call sequence on the builder in the token language of bld.rs (metadata — repeated tokens are
+/// repeated calls —, `sdt=` / `clt=` typed timestamps, `f=` files incl. unreadable sources and out-of-range file times, `dp=`,
+/// `sc=` / `scs=`, `cl=`, compression incl. refused levels, `lf=` large-file limit, `sgn=bs|b+s`), then `build()`:
+/// `ok paysha=… archsha=… lead=… sig=… hdr=… hlen=… same=…` | `err:<class>` | `panic`
+fn build17(tokens: &[&str]) -> String {
+    let r = guarded(AssertUnwindSafe(|| -> Result<String, Error> {
+        let b = crate::bld::builder_from(tokens)?;
+        let pkg = crate::bld::build_pkg(b, tokens)?;
+        Ok(crate::bld::observe_head(&pkg, tokens)?.0)
+    }));
+    crate::bld::cleanup();
+    match r {
+        Ok(Ok(s)) => s,
+        Ok(Err(e)) => err_class_wf(&e).into(),
         Err(_) => "panic".into(),
     }
 }
@@ -495,6 +572,7 @@ fn meta(s: String) -> String {
 pub fn eval(op: &str, a: &[&str]) -> Option<String> {
     let text = |h: &str| String::from_utf8(unhx(h)).ok();
     match op {
+        "build17" => Some(build17(a)),
         "dest" if a.len() == 1 => Some(dest(text(a[0])?)),
         "pcomps" if a.len() == 1 => Some(pcomps(Path::new(OsStr::from_bytes(&unhx(a[0]))))),
         "pparent" if a.len() == 1 => Some(opt_path(Path::new(OsStr::from_bytes(&unhx(a[0]))).parent())),
@@ -650,11 +728,124 @@ fn gen_nobz(ctx: &mut Ctx) {
     }
 }
 
+/// whole-build cases for `build17`: hand-made sequences (every failure kind alone and against another one, in both orders;
+/// repeated setters; typed timestamps at the edges of 1970..2106; the large-file switch at sum − 1 / sum / sum + 1 through the
+/// hook; signing) and seeded configurations of the shared generator with such extras mixed in
+pub fn gen_build17(ctx: &mut Ctx) {
+    let h = |s: &str| hx(s.as_bytes());
+    let (si, sn) = ctx.shard;
+    let mut k = 0u64;
+    let mut emit = |ctx: &mut Ctx, line: String| {
+        k += 1;
+        if k % sn == si { ctx.req(&format!("build17 {}", line)); }
+    };
+    let head = format!("n={} v={} l={} a={} s={} now=1700000000", h("pkg"), h("1.0"), h("MIT"), h("noarch"), h("sum"));
+    let root = h("root");
+    let file = |dest: &str, mode: &str, mtime: i64, seed: u64, size: usize, extra: &str| {
+        format!("f={}:{}:{}:{}:0:~:-:{}:{}:{}:~{}", hx(dest.as_bytes()), mode, root, root, mtime, seed, size, extra)
+    };
+    let good = file("/usr/bin/x", "33188", 1_500_000_000, 4, 100, "");
+    const T32: i64 = 1 << 32;
+    // 1. plain, every compression kind, defaults
+    for c in ["", "c=none", "c=gzip:6", "c=zstd:19", "c=xz:6", "c=bzip2:9", "c=gzip:d", "c=zstd:-7"] {
+        emit(ctx, format!("{} {}", head, c));
+        emit(ctx, format!("{} {} {}", head, c, good));
+    }
+    // 2. repeated setters: the last call wins (also for the compression: a refused level that is overwritten is no error)
+    for rep in [format!("u={} u={}", h("a"), h("b")), format!("r={} r={} r={}", h("2"), h(""), h("3.fc40")), "e=1 e=4294967295 e=7".to_string(),
+                format!("d={} d={}", h("x"), h("")), format!("ve={} pk={} ve={}", h("v1"), h("p"), h("v2")), format!("g={} g={}", h("G1"), h("G2")),
+                format!("vc={} vc={} ck={} ck={} bh={} bh={}", h("1"), h("2"), h("3"), h("4"), h("5"), h("6")),
+                "c=gzip:10 c=none".to_string(), "c=none c=gzip:10".to_string(), "c=zstd:3 c=xz:d c=zstd:3".to_string(),
+                format!("sc=prein:{}:1:~ sc=prein:{}:~:{}", h("a"), h("b"), h("/bin/sh")), format!("scs=postin:{} sc=postin:{}:2:- scs=postin:{}", h("x"), h("y"), h("zz")),
+                format!("cl={}:{}:1 cl={}:{}:1", h("a"), h("t"), h("a"), h("t")), format!("dp=req:{}:8:{} dp=req:{}:8:{}", h("w"), h("1"), h("w"), h("1"))] {
+        emit(ctx, format!("{} c=none {}", head, rep));
+    }
+    // 3. typed timestamps at the edges, as source date and as changelog time, alone and before / after a failing file
+    let missing = file("/opt/m", "33188", 1_500_000_000, 5, 3, ":k=missing");
+    for kind in ["sys", "utc", "fix"] {
+        for (s, n) in [(-1i64, 999_999_999u32), (-1, 0), (0, 0), (0, 999_999_999), (1_600_000_000, 5), (T32 - 1, 0), (T32 - 1, 999_999_999), (T32, 0), (T32 + 5, 1), (-86_400, 0)] {
+            emit(ctx, format!("{} c=none sdt={}:{}:{}", head, kind, s, n));
+            emit(ctx, format!("{} c=none {} clt={}:{}:{}:{}:{}", head, good, h("me"), h("t"), kind, s, n));
+            if n == 0 {
+                emit(ctx, format!("{} c=none sdt={}:{}:{} {}", head, kind, s, n, missing));
+                emit(ctx, format!("{} c=none sdt={}:{}:{} {} sdlast", head, kind, s, n, missing));
+                emit(ctx, format!("{} c=none {} clt={}:{}:{}:{}:{}", head, missing, h("me"), h("t"), kind, s, n));
+            }
+        }
+    }
+    emit(ctx, format!("{} c=none sdt=u32:4294967295:0 clt={}:{}:u32:0:0", head, h("a"), h("b")));
+    // 4. every failure of `with_file`, alone, after a good file, before a refused compression level
+    let bad_time_lo = file("/opt/t", "33188", -1, 6, 3, ":ns=999999999");
+    let bad_time_hi = file("/opt/t", "i420", T32, 6, 3, "");
+    let bad_dest = file("/usr/..", "33188", 1_500_000_000, 6, 3, "");
+    let rel_dest = file("usr/x", "33188", 1_500_000_000, 6, 3, "");
+    let isdir = file("/opt/d", "33188", 1_500_000_000, 6, 3, ":k=dir");
+    let bad_caps = format!("f={}:33188:{}:{}:0:{}:-:1500000000:6:3:~", h("/opt/c"), root, root, h("cap_bogus=p"));
+    let bad_caps2 = format!("f={}:33188:{}:{}:0:{}:-:-5:6:3:~", h("/usr/.."), root, root, h("cap_chown"));
+    for f in [&missing, &bad_time_lo, &bad_time_hi, &bad_dest, &rel_dest, &isdir, &bad_caps, &bad_caps2] {
+        emit(ctx, format!("{} c=none {}", head, f));
+        emit(ctx, format!("{} c=none {} {}", head, good, f));
+        emit(ctx, format!("{} c=gzip:10 {}", head, f));
+        emit(ctx, format!("{} c=none {} {}", head, f, bad_dest));
+    }
+    // 5. the large-file switch around the combined size (hook), both archive forms, with and without files
+    for lf in [0u64, 1, 110, 111, 112, 4294967295, 4294967296] {
+        emit(ctx, format!("{} c=none lf={}", head, lf));
+        emit(ctx, format!("{} c=none lf={} {} {}", head, lf, good, file("/a", "i420", 1_500_000_001, 7, 11, "")));
+        emit(ctx, format!("{} c=gzip:1 lf={} {} {} {}", head, lf, good, file("/a", "i420", 1_500_000_001, 7, 11, ""), file("/a", "i420", 1_500_000_001, 9, 50, "")));
+    }
+    // 6. directory layouts whose byte order differs from their component order, `.` / `//` / trailing separators, duplicates
+    for dests in [vec!["/a-b/f", "/a/f"], vec!["/a/m.txt", "/a/m/x"], vec!["/a/./b", "/a/b"], vec!["/a/b/", "/a/b"], vec!["//a//b", "/a/b"],
+                  vec!["/a/b", "/a/b"], vec!["./a/b", "/a/b"], vec!["/ü/x", "/z/x", "/a b/x", "/A/x"], vec!["/x", "/y/x", "/y/z/x", "/y/z/w/x"]] {
+        let fs: Vec<String> = dests.iter().enumerate().map(|(i, d)| file(d, "33188", 1_500_000_000, 10 + i as u64, 5 + i, "")).collect();
+        emit(ctx, format!("{} c=none {}", head, fs.join(" ")));
+        let rev: Vec<String> = fs.iter().rev().cloned().collect();
+        emit(ctx, format!("{} c=none {}", head, rev.join(" ")));
+    }
+    // 7. metadata strings of every awkward kind through `new` and the setters (NUL included: the header cuts there, nothing panics)
+    let long300 = "x".repeat(300);
+    for sx in ["", " ", "a\u{0}b", "é", "𝄞 4-byte", "line\nbreak", long300.as_str()] {
+        let x = h(sx);
+        emit(ctx, format!("n={} v={} l={} a={} s={} now=1700000000 c=none r={} d={} ve={} pk={} g={} u={} vc={} ck={} bh={} cl={}:{}:5 scs=verify:{} dp=sug:{}:0:{} {}",
+            x, x, x, x, x, x, x, x, x, x, x, x, x, x, x, x, x, x, x,
+            format!("f={}:33188:{}:{}:0:~:{}:1500000000:4:9:~", h("/usr/bin/x"), x, x, x)));
+    }
+    // 8. signing: build_and_sign and build + sign
+    for sg in ["bs", "b+s"] {
+        emit(ctx, format!("{} c=none sgn={}", head, sg));
+        emit(ctx, format!("{} c=zstd:3 sgn={} sd=1600000000 {}", head, sg, good));
+        emit(ctx, format!("{} c=none sgn={} {}", head, sg, missing));
+        emit(ctx, format!("{} c=gzip:10 sgn={}", head, sg));
+    }
+    // 9. seeded: configurations of the shared generator with extras
+    let n = ctx.q(240u64, 6_000);
+    let sizes = [0usize, 1, 3, 4, 5, 100, 4096, 20_000];
+    for i in 0..n {
+        let mut cfg = crate::c06::gen_cfg(&mut ctx.rng, &sizes);
+        let r = &mut ctx.rng;
+        if r.chance(1, 3) {
+            let (s, ns) = *r.pick(&[(-1i64, 0u32), (0, 1), (1_650_000_000, 0), (T32 - 1, 999_999_999), (T32, 0)]);
+            cfg.push_str(&format!(" sdt={}:{}:{}", r.pick(&["sys", "utc", "fix"]), s, ns));
+        }
+        if r.chance(1, 3) {
+            let (s, ns) = *r.pick(&[(-2i64, 5u32), (0, 0), (1_650_000_000, 7), (T32 - 1, 0), (T32 + 1, 0)]);
+            cfg.push_str(&format!(" clt={}:{}:{}:{}:{}", h("x <x@y>"), h("- t"), r.pick(&["sys", "utc", "fix", "u32"]), s, ns));
+        }
+        if r.chance(1, 4) { cfg.push_str(&format!(" {}", r.pick(&[&missing, &bad_time_lo, &bad_time_hi, &bad_dest, &isdir, &bad_caps]))); }
+        if r.chance(1, 4) { cfg.push_str(&format!(" u={} r={} e={}", h("again"), h("9"), r.below(5))); }
+        if r.chance(1, 5) { cfg.push_str(&format!(" c={}", r.pick(&["none", "gzip:10", "zstd:23", "xz:9", "bzip2:0", "zstd:-131073"]))); }
+        if r.chance(1, 4) { cfg.push_str(&format!(" lf={}", r.pick(&[0u64, 3, 100, 4096, 24_000, 100_000]))); }
+        if r.chance(1, 6) { cfg.push_str(&format!(" sgn={}", r.pick(&["bs", "b+s"]))); }
+        if i % sn == si { ctx.req(&format!("build17 {}", cfg)); }
+    }
+}
+
 pub fn gen(ctx: &mut Ctx) {
     if ctx.variant == "nobz" {
         return gen_nobz(ctx);
     }
     gen_wfile(ctx, "wfile17");
+    gen_build17(ctx);
     if ctx.shard.0 == 0 {
         for ty in ["default", "none", "gzip", "zstd", "xz", "bzip2"] {
             ctx.req(&format!("leveld {}", ty));
